@@ -46,7 +46,9 @@ def scenarios(tier, seed):
                 ch += [["dual", "var"], ["dual", "cov"], ["var", "dual"], ["var"], ["cov"]] * 2
             scn["adapters"] = rng.choice(ch)
         else:
-            scn["adapters"] = rng.choice([["rwscale"], ["rwscale"], None])
+            scn["adapters"] = rng.choice([["rwscale"], ["rwscale", "jitamount"], ["jitamount"], None])
+            if scn["adapters"] and "jitamount" in scn["adapters"]:
+                scn["second_transition"] = True
         scn["n_warm_up"] = rng.choice([0, 1, 2, 3, 4, 5, 6, 7, 8, 9, 10, 12, 15, 20, 26, 33, 40])
         scn["n_main"] = rng.choice([0, 1, 2, 3, 4])
         scn["storage"] = "mem" if scn["n_process"] == 1 else scn["storage"]
@@ -193,6 +195,19 @@ def judge(rec):
         if per_call_entries.get(idx, 0) != c["n_iter"] * T:
             v.append(violation("partition", f"{PROP} partition-iterations", f"_sample_chain call {idx} (chain {c['chain']}, stage {stage_of_call[idx]}) made {per_call_entries.get(idx, 0)} transition calls for {c['n_iter']} iterations x {T} transitions"))
             return v, lens
+    # every adapter assigned to a stage is updated once per iteration of every chain in that stage
+    n_upd = {}
+    for a in ad_log:
+        if a["ev"] == "update":
+            n_upd[(a["call"], a["adapter"])] = n_upd.get((a["call"], a["adapter"]), 0) + 1
+    for idx, c in enumerate(calls):
+        if c["adapters"] and c["outcome"] == "ok":
+            for tk, labels in c["adapters"].items():
+                for label in labels:
+                    if n_upd.get((idx, label), 0) != c["n_iter"]:
+                        v.append(violation("adapter-not-active", f"{PROP} adapter-not-active",
+                                           f"adapter {label} (transition {tk}) was updated {n_upd.get((idx, label), 0)} times in stage {stage_of_call[idx]} of chain {c['chain']} which has {c['n_iter']} iterations"))
+                        return v, lens
     # adapter events per stage
     ev_stage = []
     for a in ad_log:
@@ -242,45 +257,65 @@ def judge(rec):
     if any(len(g) != n for (s, g), n in zip(fin_groups, per_stage_n)):
         v.append(violation("finalize-count", f"{PROP} finalize-count", "an adaptive stage was not finalized"))
         return v, lens
-    # zero-iteration stages change nothing
-    for s, g in fin_groups:
-        if lens[s] == 0 and g:
-            before, after = g[0]["before"], g[-1]["after"]
-            # 'before' of the first finalize may already include initialize() effects; compare with params left by previous stage
-            prev = None
-            for s2, g2 in fin_groups:
-                if s2 < s and g2:
-                    prev = g2[-1]["after"]
-            if prev is None:
-                prev = rec.initial_params
-            if after != prev:
+    # per transition key: finalize events grouped by stage
+    tkeys = sorted({a.get("trans_key") for a in fin_events if a.get("trans_key") is not None})
+    upd_stage_tk = {}
+    for a, s_ in zip(ad_log, ev_stage):
+        if a["ev"] == "update" and s_ is not None:
+            upd_stage_tk[(a.get("trans_key"), s_)] = upd_stage_tk.get((a.get("trans_key"), s_), 0) + 1
+    for tk in tkeys:
+        groups_tk = [(s_, [a for a in g if a.get("trans_key") == tk]) for s_, g in fin_groups]
+        groups_tk = [(s_, g) for s_, g in groups_tk if g]
+        init = rec.initial_params_by_key.get(tk, rec.initial_params)
+        # zero-iteration stages change nothing
+        prev = init
+        for s_, g in groups_tk:
+            after = g[-1]["after"]
+            if lens[s_] == 0 and after != prev:
                 v.append(violation("empty-stage-changes-params", f"{PROP} empty-stage-changes-params",
-                                   f"stage {s} has zero iterations but transition parameters changed from {prev} to {after} (stage lengths {lens})"))
+                                   f"stage {s_} has zero iterations but parameters of transition {tk} changed from {prev} to {after} (stage lengths {lens})"))
                 return v, lens
-    # main stage parameters
+            prev = after
+        # main stage parameters
+        if has_main and main_first is not None:
+            with_upd = [(s_, g) for s_, g in groups_tk if upd_stage_tk.get((tk, s_), 0) > 0]
+            if with_upd:
+                s_star, g = with_upd[-1]
+                want = g[-1]["after"]
+                src = f"finalize of stage {s_star} (the last stage with >=1 update of an adapter of transition {tk})"
+            else:
+                want, src = init, "the initial parameters (no stage performed an update)"
+            for e in entries:
+                if stage_of_call[e["call"]] != main_stage or e["trans"] != tk:
+                    continue
+                got = params_of(e)
+                for p in ("step_size", "metric", "scale"):
+                    if got[p] is None or got[p] == "n/a":
+                        continue
+                    if got[p] != want.get(p):
+                        v.append(violation("main-stage-params", f"{PROP} main-stage-params:{p}",
+                                           f"main stage used {p}={got[p]!r} in transition {tk} (chain {e['chain']}) but {src} left {want.get(p)!r}; stage lengths {lens}"))
+                        return v, lens
+                if e["stats"] is not None and "step_size" in e["stats"] and want.get("step_size") is not None:
+                    if e["stats"]["step_size"] != want["step_size"]:
+                        v.append(violation("main-stage-params", f"{PROP} main-stage-params:step_size-statistic",
+                                           f"step_size statistic {e['stats']['step_size']!r} in main stage differs from {want['step_size']!r}"))
+                        return v, lens
+    # transitions without any adapter: parameters in the main stage equal the initial ones
     if has_main and main_first is not None:
-        last_upd = [s for s in range(n_stage) if updates_in_stage[s] > 0]
-        if last_upd:
-            s_star = last_upd[-1]
-            g = next(g for s, g in fin_groups if s == s_star)
-            want = g[-1]["after"]
-            src = f"finalize of stage {s_star} (the last stage with >=1 update)"
-        else:
-            want, src = rec.initial_params, "the initial parameters (no stage performed an update)"
-        main_entries = [e for e in entries if stage_of_call[e["call"]] == main_stage]
-        for e in main_entries:
+        for e in entries:
+            if stage_of_call[e["call"]] != main_stage or e["trans"] in tkeys:
+                continue
+            init = rec.initial_params_by_key.get(e["trans"])
+            if init is None:
+                continue
             got = params_of(e)
-            for p in ("step_size", "metric", "scale"):
-                if got[p] is None or got[p] == "n/a":
-                    continue  # this transition does not carry the parameter
-                if got[p] != want.get(p):
-                    v.append(violation("main-stage-params", f"{PROP} main-stage-params:{p}",
-                                       f"main stage used {p}={got[p]!r} (chain {e['chain']}) but {src} left {want.get(p)!r}; stage lengths {lens}, updates per stage {updates_in_stage}"))
-                    return v, lens
-            if e["stats"] is not None and "step_size" in e["stats"] and want.get("step_size") is not None:
-                if e["stats"]["step_size"] != want["step_size"]:
-                    v.append(violation("main-stage-params", f"{PROP} main-stage-params:step_size-statistic",
-                                       f"step_size statistic {e['stats']['step_size']!r} in main stage differs from {want['step_size']!r}"))
+            for p in ("scale",):  # step size and metric live in objects shared with the adapted transition
+                if got[p] is None or got[p] == "n/a" or init.get(p) is None:
+                    continue
+                if got[p] != init[p] and not any(a.get("trans_key") is None for a in fin_events):
+                    v.append(violation("main-stage-params", f"{PROP} main-stage-params:{p}:unadapted",
+                                       f"transition {e['trans']} has no adapter but its {p} in the main stage is {got[p]!r}, initially {init[p]!r}"))
                     return v, lens
     return v, lens
 
